@@ -78,7 +78,7 @@ def run(ctx, fn):
         tmp.close()
         env = dict(os.environ, IPCV_NO_SELFTEST="1")
         env.pop("VERIF_TIER", None)
-        r = subprocess.run([sys.executable, os.path.join(extract.VERIF, "tools", "selftest.py"), "--prop", ctx.prop, "--json", tmp.name], capture_output=True, text=True, env=env)
+        r = subprocess.run([sys.executable, os.path.join(extract.VERIF, "tools", "selftest.py"), "--prop", ctx.prop, "--cap", "24", "-j", "8", "--json", tmp.name], capture_output=True, text=True, env=env)
         try:
             results = json.load(open(tmp.name))
         except Exception:
